@@ -12,6 +12,8 @@ pub struct UStr {
     pub ucs2: bool,
     /// the sent length includes a terminating NUL unit/byte
     pub with_nul: bool,
+    /// UCS-2 only: the stray 01 byte some games put between the length byte and the data (not counted in the length)
+    pub extra01: bool,
 }
 
 /// Latin-1 printable characters that windows-1252 and ISO-8859-1 agree on.
@@ -109,13 +111,16 @@ impl UStr {
                 break;
             }
         }
-        Self { units, ucs2, with_nul }
+        Self { units, ucs2, with_nul, extra01: false }
     }
 
     pub fn encode(&self, out: &mut Vec<u8>) {
         let n = self.units.len() + self.with_nul as usize;
         if self.ucs2 {
             out.push(0x80 | n as u8);
+            if self.extra01 {
+                out.push(1);
+            }
             for u in &self.units {
                 out.extend(u.to_le_bytes());
             }
@@ -173,10 +178,14 @@ impl UStr {
             // next field; real servers send empty strings as Latin-1
             s.with_nul = true;
         }
+        // the stray 01 of some games (the reader documents that it skips it): only where data follows it
+        if ucs2 && rng.chance(1, 4) {
+            s.extra01 = true;
+        }
         s
     }
 
-    pub fn from_text(t: &str) -> Self { Self { units: t.chars().map(|c| c as u16).collect(), ucs2: false, with_nul: true } }
+    pub fn from_text(t: &str) -> Self { Self { units: t.chars().map(|c| c as u16).collect(), ucs2: false, with_nul: true, extra01: false } }
 }
 
 #[derive(Debug, Clone)]
